@@ -3,7 +3,11 @@ HOOK_COMMITS = []
 COMMON_NOTE = ('Trusted: the pyvc generator and its library models (struct, utf-8, re, datetime; cross-checked against CPython on '
                'concrete inputs), z3/cvc5, CPython ast; Python ints are mathematical so no machine-arithmetic idealisation. '
                'Functions outside the executor subset fall back to a bounded run-time check of the same contract, labelled '
-               'bounded in the evidence and never counted as discharged. ')
+               'bounded in the evidence and never counted as discharged. The cone of contracts is closed under use: every '
+               'contract applied at a call site while verifying is itself verified in the same run (listed as '
+               'contracts_added_by_cone_closure); applying a contract to an argument type class it was not verified for is '
+               'undecided, not assumed. History clauses (a call gives what it gives in a fresh interpreter) are additionally '
+               'exercised by a bounded API session compared call by call with forked fresh children. ')
 CHECKS = {
     'C11': {
         'text': 'Every obligation of the integer-encoder contracts (table_integer, _deprecated_table_integer, the five fixed-width '
